@@ -36,7 +36,7 @@ var c08Cfgs = func() []Cfg {
 }()
 
 // quick tier: compact + 4 pretty option sets
-var c08Quick = []int{0, 1, 2, 7, 20}
+var c08Quick = []int{0, 1, 2, 4, 7, 20}
 
 // lineStart returns the byte offset at which line `line` starts; generated code follows the line model the
 // source-map builder is specified with (C09: LF, CRLF and a lone CR are one line break each), source text
@@ -254,6 +254,7 @@ func c08Reuse(prog *ast.Program, cfg Cfg, first CompOut) (kind, detail string) {
 }
 
 func c08Run(c *core.Ctx) {
+	processWarmup()
 	cfgIdx := c08Quick
 	if c.Thorough() {
 		cfgIdx = nil
@@ -369,6 +370,18 @@ func c08Run(c *core.Ctx) {
 			toks := gen.UnparseProgram([]*gen.Node{gen.Ex(e), gen.Let("x", gen.Clone(e))}, false)
 			run(gen.RenderDefault(toks), d*10, nil, "")
 			run(gen.Render(toks, func(int) string { return "\n  " }, nil), d*10+1, nil, "")
+			// a comment in front of every closing bracket in turn (trivia of closers is replayed by the printers)
+			for ti, t := range toks {
+				if t.Text == ")" || t.Text == "]" || t.Text == "}" {
+					ti := ti
+					run(gen.Render(toks, func(i int) string {
+						if i == ti {
+							return " // c\n"
+						}
+						return " "
+					}, nil), d*10+2, nil, "")
+				}
+			}
 		})
 	}
 	// (3b) scale family (long lines: multi-digit VLQ columns; many names; many lines)
